@@ -39,7 +39,7 @@ def suite(wt):
     return {'passed': len(passed), 'baseline': len(base),
             'missing_from_baseline': sorted(base - passed)[:10],
             'test_excel_model_error_cells': errs,
-            'test_excel_model_errors_as_pristine': errs == [
+            'test_excel_model_errors_as_HEAD(none)': errs == [] or errs == [
                 '[TEST.XLSX]LOOKUP!AL19', '[TEST.XLSX]LOOKUP!Y20']}
 
 
